@@ -348,6 +348,9 @@ func senderPool(from int) []*actor.PID {
 		actor.NewPID("local", "x/1"),
 		actor.NewPID(addrOf(from), "snd/"+strings.Repeat("deep/", 30)+"a"),
 		actor.NewPID(addrOf(from), "snd/"+strings.Repeat("deep/", 30)+"b"),
+		// the same characters, split between address and id at different separators
+		actor.NewPID("node-a", "svc/worker/1"),
+		actor.NewPID("node-a/svc", "worker/1"),
 	}
 }
 
@@ -464,6 +467,13 @@ func setup(rc *core.RunCtx) *World {
 	simrt.SetBigInboxCap(1024)
 	simnet.Net().MaxLatency = g.Range(0, 3)
 	useTLS := g.Bool(0.2)
+	// the stream writer's own size constant (today: its inbox size), shrunk so
+	// that anything keyed to it is reached with a handful of messages
+	if wb := []int64{1024, 1024, 2, 3}[g.IntN(4)]; wb != 1024 {
+		if simrt.SetKnob("remote.streamWriterBatchSize", wb) {
+			rc.Scen("streamWriterBatchSize knob=%d", wb)
+		}
+	}
 	rc.Scen("batch=%d maxLatencyIdx=%d tls=%v", b, simnet.Net().MaxLatency, useTLS)
 	return &World{rc: rc, nodes: map[int]*Node{}, tls: useTLS}
 }
